@@ -257,34 +257,85 @@ def _self_calls(fi):
 
 
 def _error_helpers(repo, ci):
-    """Methods of the class (MRO) that can reach log('error') themselves."""
-    out = set()
+    """Methods of the class (MRO) that can reach log('error') themselves ->
+    the parameter names that decide it (read by the guards of the error log,
+    through locals).  The message text a caller passes is not a decision."""
+    out = {}
     for c in repo.mro(ci):
         for nm, m in c.methods.items():
             for call in walk_no_nested(m.node):
                 if isinstance(call, ast.Call) and call_name(call) == \
                         'self.log' and call.args and \
                         const(call.args[0]) in ('error', 'critical'):
-                    out.add(nm)
+                    deciding = out.setdefault(nm, set())
+                    seen = set()
+                    work = list(_guard_exprs(call))
+                    while work:
+                        e = work.pop()
+                        for n in ast.walk(e):
+                            if isinstance(n, ast.Name) and n.id not in seen:
+                                seen.add(n.id)
+                                if n.id in m.params:
+                                    deciding.add(n.id)
+                                for d in U.assigns_of(m.node, n.id):
+                                    v = getattr(d, 'value', None) or \
+                                        getattr(d, 'iter', None)
+                                    if v is not None:
+                                        work.append(v)
     return out
+
+
+def _deciding_args(repo, ci, helpers, name, call):
+    """Arguments of a helper call bound to its deciding parameters."""
+    m = repo.lookup_method(ci, name)
+    params = [p for p in m.params if p != 'self']
+    out = []
+    for i, a in enumerate(call.args):
+        if i < len(params) and params[i] in helpers[name]:
+            out.append(a)
+        elif i >= len(params) or isinstance(a, ast.Starred):
+            out.append(a)
+    for k in call.keywords:
+        if k.arg is None or k.arg in helpers[name]:
+            out.append(k.value)
+    return out
+
+
+def _is_int(node):
+    try:
+        return isinstance(U.const_eval(node), int)
+    except ValueError:
+        return False
+
+
+def _one_member(n):
+    """n is used only through a fixed element or a proper slice."""
+    up = parent(n)
+    return isinstance(up, ast.Subscript) and up.value is n and (
+        _is_int(up.slice) or (isinstance(up.slice, ast.Slice) and (
+            up.slice.lower is not None or up.slice.upper is not None)))
 
 
 def _influence_keys(fi, exprs, bind=None):
     """Constant string keys read (through locals) by the expressions.
-    bind: {loop variable: value} fixes a literal-list loop variable."""
+    bind: {loop variable: value} fixes a literal-list loop variable.
+    A key of which only a fixed element / proper slice is examined (directly
+    or through a local alias of the list) is reported as K[#]: the decision
+    looks at one member, not at the collection."""
     bind = bind or {}
     keys = set()
     seen = set()
-    work = list(exprs)
+    work = [(e, False) for e in exprs]
     while work:
-        e = work.pop()
+        e, elem = work.pop()
         if e is None:
             continue
         for n in ast.walk(e):
             if isinstance(n, ast.Subscript):
                 c = const(n.slice)
                 if isinstance(c, str):
-                    keys.add(c)
+                    one = _one_member(n) or (elem and n is e)
+                    keys.add(c + '[#]' if one else c)
                 elif isinstance(n.slice, ast.Name) and n.slice.id in bind:
                     keys.add(bind[n.slice.id])
                 elif isinstance(n.slice, ast.Name):
@@ -299,15 +350,16 @@ def _influence_keys(fi, exprs, bind=None):
                 if isinstance(c, str):
                     keys.add(c)
             elif isinstance(n, ast.Name) and isinstance(n.ctx, ast.Load) \
-                    and n.id not in seen:
-                seen.add(n.id)
+                    and (n.id, _one_member(n)) not in seen:
+                one = _one_member(n)
+                seen.add((n.id, one))
                 for d in U.assigns_of(fi.node, n.id):
                     if isinstance(d, ast.Assign):
-                        work.append(d.value)
+                        work.append((d.value, one))
                     elif isinstance(d, ast.AugAssign):
-                        work.append(d.value)
+                        work.append((d.value, False))
                     elif isinstance(d, ast.For):
-                        work.append(d.iter)
+                        work.append((d.iter, False))
     return keys
 
 
@@ -380,8 +432,8 @@ def r2(ctx):
                 sinks.append((c, _guard_exprs(c)))
             elif nm.startswith('self.') and nm[5:] in helpers and \
                     nm[5:] != fi.name:
-                sinks.append((c, _guard_exprs(c) + list(c.args) +
-                              [k.value for k in c.keywords]))
+                sinks.append((c, _guard_exprs(c) + _deciding_args(
+                    repo, ci, helpers, nm[5:], c)))
         g = cfg_of(fi)
         live = [(c, ex) for c, ex in sinks
                 if g.node_containing(c) is not None and
@@ -395,7 +447,7 @@ def r2(ctx):
         per_sink = []
         for c, ex in live:
             ks = _influence_keys(fi, ex)
-            got |= ks
+            got |= {k[:-3] if k.endswith('[#]') else k for k in ks}
             # one decision per value of an enclosing literal-list loop
             lits = [(src(l.target), U.literal_list(l.iter))
                     for l in U.enclosing_loops(c) if isinstance(l, ast.For)
